@@ -42,9 +42,11 @@ def get_machine(name):
     return _MACHINES[name]
 
 
-def machines_for(prop):
+def machines_for(prop, only=None):
     out = []
     for mname in PROPERTY_MACHINES[prop]:
+        if only and not any(o.split(":")[0] == mname for o in only):
+            continue
         mod = importlib.import_module("dsim.machines." + mname)
         for n in getattr(mod, "VARIANTS", [mname]):
             out.append(get_machine(n))
@@ -257,7 +259,7 @@ def replay_in_fresh_interpreter(path):
 def cmd_run(prop, tier, seed, nproc, runs_override=None, only=None):
     t_start = time.time()
     known = load_known()
-    machines = machines_for(prop)
+    machines = machines_for(prop, only)
     if only:
         machines = [m for m in machines if m.name in only]
     per_machine = {}
